@@ -39,7 +39,10 @@ type logScenario struct {
 	WLogToo bool        `json:"wlog_too"`
 	Restart bool        `json:"restart_before_reads"`
 	Reads   []*readSpec `json:"reads"`
-	Puts    []putObs    `json:"puts_observed,omitempty"`
+	// reads done before event number MidAt is appended (0 = before the first append)
+	MidAt    int         `json:"mid_at,omitempty"`
+	MidReads []*readSpec `json:"mid_reads,omitempty"`
+	Puts     []putObs    `json:"puts_observed,omitempty"`
 }
 
 type codecScenario struct {
@@ -56,9 +59,12 @@ type codecScenario struct {
 }
 
 type scenario struct {
-	Backend string         `json:"backend"`
-	Log     *logScenario   `json:"log,omitempty"`
-	Codec   *codecScenario `json:"codec,omitempty"`
+	Backend string `json:"backend"`
+	// PLog event cache off; in every scenario each appended event and each event delivered to a read
+	// callback is Release()d as soon as its accessor dump has been taken
+	PLogCacheOff bool           `json:"plog_cache_off,omitempty"`
+	Log          *logScenario   `json:"log,omitempty"`
+	Codec        *codecScenario `json:"codec,omitempty"`
 }
 
 const scratchPart = 64000
@@ -174,12 +180,15 @@ func countZ(c int64) string {
 
 func runLog(sc *scenario) (string, []string, error) {
 	ls := sc.Log
-	r, err := newRig(sc.Backend)
+	r, err := newRig(sc.Backend, sc.PLogCacheOff)
 	if err != nil {
 		return "", nil, err
 	}
 	defer r.close()
 	tags := map[string]bool{"log": true, sc.Backend: true, "class:" + ls.Class: true}
+	if sc.PLogCacheOff {
+		tags["plog-cache-off"] = true
+	}
 	var terms []string
 	type lk struct {
 		wlog bool
@@ -193,52 +202,13 @@ func runLog(sc *scenario) (string, []string, error) {
 		logs[k][off] = dig
 	}
 	ls.Puts = nil
-	for _, s := range ls.Events {
-		raw, buildErr, err := r.build(s, nil)
-		if err != nil {
-			return "", nil, err
-		}
-		pev, perr := r.app.Events().PutPlog(raw, buildErr, r.gen)
-		code, txt := putCode(perr)
-		obs := putObs{PLog: txt}
-		var dig uint64
-		if perr == nil {
-			d, err := r.dump(pev)
-			if err != nil {
-				return "", nil, err
-			}
-			dig = d.Digest
-			obs.Dig = dig
-			store(lk{false, uint64(s.Part)}, s.POff, dig)
-		}
-		terms = append(terms, fmt.Sprintf("LPut false %d %d %s %d %d", s.Part, s.POff, kit.Bool(s.corrupted()), dig, code))
-		tags["put:"+s.Shape] = true
-		if code == 1 {
-			tags["put-refused"] = true
-		}
-		if perr == nil && ls.WLogToo {
-			werr := r.app.Events().PutWlog(pev)
-			wcode, wtxt := putCode(werr)
-			obs.WLog = wtxt
-			if werr == nil {
-				store(lk{true, s.WS}, s.WOff, dig)
-			}
-			terms = append(terms, fmt.Sprintf("LPut true %d %d %s %d %d", s.WS, s.WOff, kit.Bool(s.corrupted()), dig, wcode))
-		}
-		ls.Puts = append(ls.Puts, obs)
-	}
-	if ls.Restart {
-		if err := r.restart(); err != nil {
-			return "", nil, err
-		}
-		tags["restart"] = true
-	}
 	classes := map[string]bool{}
-	for _, rd := range ls.Reads {
+	doRead := func(rd *readSpec) error {
 		rd.Got, rd.Err = nil, ""
 		var rerr error
-		collect := func(o istructs.Offset, e istructs.IDbEvent) error {
+		collect := func(o istructs.Offset, e istructs.IDbEvent, release func()) error {
 			d, err := r.dump(e)
+			release() // nothing of the event is used after this point
 			if err != nil {
 				return err
 			}
@@ -248,10 +218,10 @@ func runLog(sc *scenario) (string, []string, error) {
 		cnt := int(rd.Count)
 		if rd.WLog {
 			rerr = r.app.Events().ReadWLog(context.Background(), istructs.WSID(rd.ID), istructs.Offset(rd.Off), cnt,
-				func(o istructs.Offset, e istructs.IWLogEvent) error { return collect(o, e) })
+				func(o istructs.Offset, e istructs.IWLogEvent) error { return collect(o, e, e.Release) })
 		} else {
 			rerr = r.app.Events().ReadPLog(context.Background(), istructs.PartitionID(rd.ID), istructs.Offset(rd.Off), cnt,
-				func(o istructs.Offset, e istructs.IPLogEvent) error { return collect(o, e) })
+				func(o istructs.Offset, e istructs.IPLogEvent) error { return collect(o, e, e.Release) })
 		}
 		ecode := 0
 		if rerr != nil {
@@ -290,6 +260,63 @@ func runLog(sc *scenario) (string, []string, error) {
 		if rd.Class != "" {
 			classes[rd.Class] = true
 		}
+		return nil
+	}
+	for i, s := range ls.Events {
+		if i == ls.MidAt && len(ls.MidReads) > 0 {
+			tags["mid-reads"] = true
+			for _, rd := range ls.MidReads {
+				if err := doRead(rd); err != nil {
+					return "", nil, err
+				}
+			}
+		}
+		raw, buildErr, err := r.build(s, nil)
+		if err != nil {
+			return "", nil, err
+		}
+		pev, perr := r.app.Events().PutPlog(raw, buildErr, r.gen)
+		code, txt := putCode(perr)
+		obs := putObs{PLog: txt}
+		var dig uint64
+		if perr == nil {
+			d, err := r.dump(pev)
+			if err != nil {
+				return "", nil, err
+			}
+			dig = d.Digest
+			obs.Dig = dig
+			store(lk{false, uint64(s.Part)}, s.POff, dig)
+		}
+		terms = append(terms, fmt.Sprintf("LPut false %d %d %s %d %d", s.Part, s.POff, kit.Bool(s.corrupted()), dig, code))
+		tags["put:"+s.Shape] = true
+		if code == 1 {
+			tags["put-refused"] = true
+		}
+		if perr == nil && ls.WLogToo {
+			werr := r.app.Events().PutWlog(pev)
+			wcode, wtxt := putCode(werr)
+			obs.WLog = wtxt
+			if werr == nil {
+				store(lk{true, s.WS}, s.WOff, dig)
+			}
+			terms = append(terms, fmt.Sprintf("LPut true %d %d %s %d %d", s.WS, s.WOff, kit.Bool(s.corrupted()), dig, wcode))
+		}
+		if perr == nil {
+			pev.Release()
+		}
+		ls.Puts = append(ls.Puts, obs)
+	}
+	if ls.Restart {
+		if err := r.restart(); err != nil {
+			return "", nil, err
+		}
+		tags["restart"] = true
+	}
+	for _, rd := range ls.Reads {
+		if err := doRead(rd); err != nil {
+			return "", nil, err
+		}
 	}
 	// a finding tag only when every deviating read of the case deviates in that one way
 	switch {
@@ -325,8 +352,9 @@ func (r *rig) decodeStored(off uint64, data []byte) (res string) {
 		}
 	}()
 	called := false
-	err := r.app.Events().ReadPLog(context.Background(), scratchPart, istructs.Offset(off), 1, func(istructs.Offset, istructs.IPLogEvent) error {
+	err := r.app.Events().ReadPLog(context.Background(), scratchPart, istructs.Offset(off), 1, func(_ istructs.Offset, e istructs.IPLogEvent) error {
 		called = true
+		e.Release()
 		return nil
 	})
 	switch {
@@ -341,12 +369,15 @@ func (r *rig) decodeStored(off uint64, data []byte) (res string) {
 func runCodec(sc *scenario) (string, []string, error) {
 	cs := sc.Codec
 	s := cs.Event
-	r, err := newRig(sc.Backend)
+	r, err := newRig(sc.Backend, sc.PLogCacheOff)
 	if err != nil {
 		return "", nil, err
 	}
 	defer r.close()
 	tags := map[string]bool{"codec": true, sc.Backend: true, "shape:" + s.Shape: true}
+	if sc.PLogCacheOff {
+		tags["plog-cache-off"] = true
+	}
 	bases := map[uint64]*baseDoc{}
 	if s.Shape == "cudupd" || s.Shape == "cuddeact" {
 		if err := r.ensureBase(s.WS, bases); err != nil {
@@ -379,6 +410,8 @@ func runCodec(sc *scenario) (string, []string, error) {
 	if string(stored) != string(pev.Bytes()) || string(wstored) != string(stored) {
 		tags["stored-bytes-differ"] = true
 	}
+	stored, wstored = append([]byte{}, stored...), append([]byte{}, wstored...)
+	pev.Release()
 	if err := r.restart(); err != nil {
 		return "", nil, err
 	}
@@ -388,6 +421,7 @@ func runCodec(sc *scenario) (string, []string, error) {
 		offOK = uint64(o) == s.POff
 		var err error
 		dread, err = r.dump(e)
+		e.Release()
 		return err
 	})
 	if err != nil {
@@ -397,6 +431,7 @@ func runCodec(sc *scenario) (string, []string, error) {
 		offOK = offOK && uint64(o) == s.WOff
 		var err error
 		dwlog, err = r.dump(e)
+		e.Release()
 		return err
 	})
 	if err != nil {
